@@ -54,3 +54,41 @@ Proof.
   destruct (ni_xy_frame g d ni _ tx ty p Ha Hid) as (-> & s & rx & ry & k & dx & dy & H1 & H2 & H3 & H4 & H5 & H6).
   rewrite Hname. exists tx, ty, s, rx, ry, k, dx, dy. repeat split; auto.
 Qed.
+
+(* ------------------------------------------------------------------ C12: route words have exactly the route width *)
+(* For every source-routed description the model accepts: the route type is at least one bit wide, and every word of
+   the emitted RoutingTables is written with exactly that width and that many digits and holds its value in it. *)
+From FV Require Import Routing Emit Hw.
+Lemma route_bits_init sp c ri : gen_routing_info sp c = Ok ri -> 1 <= ri_route_bits ri.
+Proof.
+  unfold gen_routing_info. intros H. destruct (Z.of_nat (length (c_nis c)) =? 0); [discriminate|]. inv_bind H.
+  inversion H; subst; cbn [ri_route_bits]. apply fold_max_init.
+Qed.
+
+Theorem netlist_route_words sp c ri n :
+  gen_routing_info sp c = Ok ri -> emit c ri = Ok n -> d_algo (c_desc c) = SRC ->
+  n_route_bits n = Some (ri_route_bits ri) /\ 1 <= ri_route_bits ri /\
+  exists tb, n_tables n = Some tb /\
+    forall row w, In row tb -> In w row ->
+      w_width w = ri_route_bits ri /\ w_digits w = ri_route_bits ri /\ 0 <= w_val w < 2 ^ ri_route_bits ri.
+Proof.
+  intros Hri He Ha. pose proof (route_bits_init sp c ri Hri) as Hrb.
+  destruct (emit_inv _ _ _ He) as (_ & axi & rts & _ & _ & Hn). rewrite Hn. cbn [n_route_bits n_tables]. rewrite Ha.
+  split; [reflexivity|]. split; [exact Hrb|]. exists (emit_tables c ri). split; [reflexivity|].
+  intros row w Hrow Hw. unfold emit_tables in Hrow. apply in_map_iff in Hrow. destruct Hrow as (x & <- & _).
+  apply in_map_iff in Hw. destruct Hw as (r & <- & Hr). cbn [emit_word w_width w_digits w_val].
+  split; [reflexivity|]. split; [reflexivity|].
+  unfold by_id_desc in Hr. apply in_rev in Hr. apply sort_by_In in Hr.
+  unfold routes_of in Hr. destruct (find _ (ri_routes ri)) as [[nm rs]|] eqn:F; [|destruct Hr].
+  apply find_some in F. destruct F as (He0 & _).
+  pose proof (route_bits_cover sp c ri Ha Hri (nm, rs) r He0 Hr) as Hcov.
+  destruct r as [id [ps|]]; cbn [snd].
+  - destruct (gri_inv _ _ _ Hri) as (_ & _ & _ & _ & Hroutes & _). specialize (Hroutes Ha).
+    destruct (mapM_In _ _ _ _ Hroutes He0) as (s & _ & Es). inv_bind Es. inversion Es; subst nm rs; clear Es.
+    match goal with E : mapM (gen_route sp c s) _ = Ok _ |- _ => destruct (mapM_In _ _ _ _ E Hr) as (t & _ & Hg) end.
+    destruct (gen_route_follows sp c s t id ps Hg) as (_ & _ & _ & _ & Hb).
+    assert (2 ^ route_bits_of (id, Some ps) <= 2 ^ ri_route_bits ri).
+    { apply Z.pow_le_mono_r; [lia|exact Hcov]. }
+    lia.
+  - assert (0 < 2 ^ ri_route_bits ri) by (apply Z.pow_pos_nonneg; lia). lia.
+Qed.
